@@ -4,7 +4,7 @@ import random
 from harness import gen_objects as G
 from harness import shims
 from harness.impl_history import (impl_history_op, call_table, is_export, isolation_mode, cold, FLAG_SETTERS,
-                                  CHROMOSOME_LEVEL)
+                                  CHROMOSOME_LEVEL, introspected)
 from harness import impl_operands as O
 
 ID = "C10"
@@ -46,6 +46,19 @@ RULE = ("(a) cache discipline: every key sequence over <= 3 keys of length <= 6 
         "constructors with caller-held lists / dicts; from_dict; intersect(new_qualifiers); query_by_* with lists and sets; "
         "to_bed12(rgb); set operations; liftover) — deep snapshot of arguments and receiver before/after, result of a "
         "second identical call and of a fresh twin, mutable containers shared between result and arguments / receiver; "
+        "The args / warm tables are closed against introspection: every public method / classmethod / staticmethod with >= 1 "
+        "argument (+ constructor, + the library's own dunder methods with arguments) of SingleInterval, CompoundInterval, "
+        "EmptyLocation, Parent, Sequence, CDSInterval, TranscriptInterval, FeatureInterval, GeneInterval, "
+        "FeatureIntervalCollection, AnnotationCollection, VariantInterval, VariantIntervalCollection is in a table "
+        "(`arg_method_inventory` / `uncovered_methods` in the evidence): from_dict of every class incl. "
+        "AnnotationCollection.from_dict(to_dict(export_parent=True)) on chromosome-with-id / chunk / parent-less "
+        "collections, incorporate_variants with a VariantInterval and a VariantIntervalCollection (7 placement x type "
+        "combinations: before / inside / after the member that ends first / after all members; SNV, insertion, deletion) on "
+        "feature / CDS / transcript / gene / feature collection / annotation collection, from_location / "
+        "from_chunk_relative_location / initialize_location / liftover_location_to_seq_chunk_parent / "
+        "construct_frames_from_location with caller-held lists and locations, lift_over_location, constructors with child "
+        "lists (variant collections included), 3 further kinds (empty location, variant, variant collection); the receiver "
+        "reading includes every child's location with its whole parent chain (ids, types, bases) and dictionary form; "
         "(g) generator-returning GFF3 exports (`lazy`) rendered row by row vs after exhaustion vs again vs on twins, on "
         "recipes whose parent level carries the keys the children add identifiers under (>= 2 coding transcripts with "
         "distinct ids / protein ids / products); (h) `export`: CDSInterval.export_qualifiers(parent_qualifiers) with own / "
@@ -76,6 +89,8 @@ ASSUMPTIONS = ["the memoised Python functions are pure functions of the construc
                "warm / args / lazy lines use recipes that spell sequence types as enum members (spelling = F-C10c, hist lines)"]
 
 KINDMODES = [f"{k}.{m}.{sp}" for sp in "es" for k in G.KINDS for m in G.MODES]
+# kinds that exist for the argument / operand legs (empty location, variant, variant collection)
+EXTRA_KINDMODES = [f"empty.{m}.e" for m in ("none", "chrom")] + [f"{k}.{m}.e" for k in G.VARIANT_KINDS for m in G.MODES]
 # sequence chunk that CUTS the (primary) CDS on the low / high coordinate side or both (5' or 3' by strand)
 CUT_KINDMODES = [f"{k}.chunk.{sp}.{cut}" for sp in "es" for k in G.CUT_KINDS for cut in G.CUTS]
 CDS_PREFIX = {"cds": "", "transcript": "cds.", "gene": "cds0.", "annot": "cds0."}
@@ -343,6 +358,93 @@ def tokens_for(kindmode):
     return _TABLE_CACHE[kindmode]
 
 
+_METHOD_CACHE = {}
+
+
+def method_tokens(kindmode):
+    """the tokens of a kind that CALL something: every public method (argument-less ones included: optimize_blocks,
+    gap_list, merge_overlapping, reverse_strand, ...) and every call with arguments / derived object — as opposed to
+    reading a property or a data attribute"""
+    km = ".".join(kindmode.split(".")[:3])
+    if km not in _METHOD_CACHE:
+        kind, mode, sp = km.split(".")
+        r = G.make(kind, random.Random(0), mode, sp)
+        intro = introspected(r.build())
+        _METHOD_CACHE[km] = [t for t in tokens_for(km) if not t.endswith(":shared") and
+                             (":" in t or t.startswith("__") or intro.get(t, ("method",))[0] == "method")]
+    return _METHOD_CACHE[km]
+
+
+# small multi-block layouts: zero-length, duplicate, nested, adjacent and overlapping blocks
+SMALL_BLOCKS = [(a, b) for a in range(4) for b in range(a, 4)]
+LAYOUTS3 = [[(0, 5), (3, 3), (6, 8)], [(0, 4), (2, 2), (2, 2)], [(0, 2), (2, 4), (4, 4)], [(1, 1), (1, 3), (3, 3)],
+            [(0, 3), (1, 2), (1, 2)], [(0, 0), (0, 0), (0, 2)], [(0, 4), (1, 3), (2, 2)], [(0, 1), (1, 1), (1, 2)],
+            [(2, 2), (0, 3), (5, 6)], [(0, 2), (4, 6), (5, 5)]]
+
+
+def _lit(blocks, strand):
+    return "L" + {"+": "p", "-": "m", ".": "u"}[strand] + "_".join(f"{a}-{b}" for a, b in blocks)
+
+
+def _degenerate(blocks):
+    """a zero-length block that touches another block, or a duplicate / nested block"""
+    for i, (a, b) in enumerate(blocks):
+        for j, (c, d) in enumerate(blocks):
+            if i != j and c <= a and b <= d and (a == b or (c, d) == (a, b) or (c < a or b < d)):
+                return True
+    return False
+
+
+def layout_cases(run):
+    """(a) compound locations with degenerate block lists, (b) histories in which ONE call (any public method, with or
+    without arguments, any operation with another operand, any derived object) comes first and every argument-less
+    question follows, compared with fresh twins: a public method that fills a lazily computed field as a by-product —
+    with a value the accessor itself would not compute — shows on the layouts where the two computations disagree."""
+    rng = run.rng
+    quick = run.tier == "quick"
+    from inscripta.biocantor.parent import parent as pm
+    cap = pm.PARENT_CACHE_SIZE
+    # random degenerate layouts, ordinary random histories
+    for mode in G.MODES:
+        km = f"compound.{mode}.e.deg"
+        for _ in range(8 if quick else 150):
+            seed = rng.randint(0, 10 ** 6)
+            h, flavour = history(rng, km, cap)
+            run.count("hist:compound.deg")
+            yield f"hist {km} {seed} " + " ".join(h)
+    # literal small layouts: all multisets of 2 blocks over the coordinates 0..3, curated 3-block layouts
+    two = [[SMALL_BLOCKS[i], SMALL_BLOCKS[j]] for i in range(len(SMALL_BLOCKS)) for j in range(i, len(SMALL_BLOCKS))]
+    layouts = [(bl, st) for bl in two for st in "+-"] + [(bl, st) for bl in LAYOUTS3 for st in "+-."]
+    layouts += [(bl[::-1], "+") for bl in LAYOUTS3[:4]]                # the caller's order is not the coordinate order
+    noarg = [t for t in tokens_for("compound.chrom.e") if ":" not in t]
+    methods = method_tokens("compound.chrom.e")
+    full = [(bl, st) for i, (bl, st) in enumerate(layouts) if len(bl) == 3 and st == "+-"[(i // 3) % 2]]
+    full += rng.sample([(bl, st) for bl, st in layouts if len(bl) == 2 and _degenerate(bl)], 6)
+    for n, (bl, st) in enumerate(layouts):
+        km = f"compound.{'chrom' if n % 2 else 'none'}.e.{_lit(bl, st)}"
+        seed = rng.randint(0, 10 ** 6)
+        if not quick or (bl, st) in full:
+            firsts = [[m] for m in methods]                                     # the whole pair sweep
+        else:
+            firsts = [rng.sample(methods, 2) for _ in range(2)]
+        for first in firsts:
+            rest = list(noarg)
+            rng.shuffle(rest)
+            run.count("hist:layout-sweep" + (":degenerate" if _degenerate(bl) else ""))
+            yield f"hist {km} {seed} " + " ".join(first + rest)
+    # the same shape for every kind: one (or two) calling tokens first, then every argument-less question
+    for km in [k for k in KINDMODES if k.endswith(".e")] + EXTRA_KINDMODES + [f"compound.{m}.e.deg" for m in G.MODES]:
+        ms = method_tokens(km)
+        na = [t for t in tokens_for(km) if ":" not in t]
+        picks = ms if not quick else rng.sample(ms, min(len(ms), 6))
+        seed = rng.randint(0, 10 ** 6)
+        for m in picks:
+            rest = list(na)
+            rng.shuffle(rest)
+            run.count("hist:method-first")
+            yield f"hist {km} {seed} {m} " + " ".join(rest)
+
+
 def flag_first(rng, kindmode, n):
     """history that FIRST reads the accessors that set `_chunk_relative_codon_locations_cached` on the (primary) CDS and
     THEN asks every chromosome-level / object-level question (num_codons, chromosome_codon_locations, translate,
@@ -427,6 +529,13 @@ def hist_cases(run):
             run.count("hist-mode:" + km.split(".")[1])
             run.count("hist-flavour:" + flavour)
             yield f"hist {km} {seed} " + " ".join(h)
+    for km in EXTRA_KINDMODES:
+        for _ in range(3 if run.tier == "quick" else 60):
+            seed = rng.randint(0, 10 ** 6)
+            h, flavour = history(rng, km, cap)
+            run.count("hist:" + km.split(".")[0])
+            run.count("hist-flavour:" + flavour)
+            yield f"hist {km} {seed} " + " ".join(h)
     # the chunk cuts the CDS: a guaranteed share of the lines, most of them reading the flag-setting accessors first
     for km in CUT_KINDMODES:
         per = (8 if km.split(".")[2] == "e" else 4) if run.tier == "quick" else (150 if km.split(".")[2] == "e" else 60)
@@ -448,13 +557,30 @@ def hist_cases(run):
         seed = rng.randint(0, 10 ** 6)
         noarg = [t for t in tokens_for(km) if ":" not in t]
         firsts = [t for t in noarg if only is None or t.startswith(only)]
+        # ... and calls WITH arguments / derived objects first (a sample of them in the quick tier)
+        argfirst = [t for t in tokens_for(km) if ":" in t and not t.endswith(":shared")]
+        firsts += argfirst if run.tier != "quick" else rng.sample(argfirst, min(len(argfirst), 30))
         for a in firsts:
             rest = list(noarg)
             rng.shuffle(rest)
             run.count("hist:pair-sweep")
             yield f"hist {km} {seed} {a} " + " ".join(rest)
+    # near-identical siblings are asked FIRST, then the object: every call WITH ARGUMENTS that builds something (from_dict,
+    # liftover, query_by_*, intersect, incorporate_variants, lift_over_location, exports) — a memo shared between objects
+    # and keyed on too little (positions but not bases, ids but not strands, ...) then holds the sibling's value
+    for km in [k for k in KINDMODES if k.endswith(".e")] + EXTRA_KINDMODES:
+        toks = [t for t in tokens_for(km) if not t.endswith(":shared") and
+                (is_export(t) or t.split(":")[0] in ("lift_over_location", "parent_with_alternative_sequence",
+                                                     "alternative_genomic_sequence", "reset_parent", "union", "intersection",
+                                                     "append", "reverse_complement", "reset_location"))]
+        for _ in range(1 if run.tier == "quick" else 10):
+            seed = rng.randint(0, 10 ** 6)
+            rng.shuffle(toks)
+            for i in range(0, len(toks), 20):
+                run.count("hist:siblings-first")
+                yield f"hist {km} {seed} S " + " ".join(toks[i:i + 20])
     # every call of every kind asked twice around an eviction (covers the whole table at least once per run)
-    for km in KINDMODES + [k for k in CUT_KINDMODES if k.split(".")[2] == "e"]:
+    for km in KINDMODES + EXTRA_KINDMODES + [k for k in CUT_KINDMODES if k.split(".")[2] == "e"]:
         toks = [t for t in tokens_for(km) if not t.endswith(":shared")]
         seed = rng.randint(0, 10 ** 6)
         rng.shuffle(toks)
@@ -496,9 +622,9 @@ def operand_cases(run):
     rng = run.rng
     quick = run.tier == "quick"
     loc_kinds = ("single", "compound")
-    kms = [f"{k}.{m}.e" for k in G.KINDS for m in G.MODES]
+    kms = [f"{k}.{m}.e" for k in G.KINDS for m in G.MODES] + EXTRA_KINDMODES
     # (a) every operation of the table on cold vs warm operands ------------------------------------------------
-    for km in kms + INH_KINDMODES + [f"{k}.chunk.e.both" for k in G.CUT_KINDS]:
+    for km in kms + INH_KINDMODES + [f"{k}.chunk.e.both" for k in G.CUT_KINDS] + [f"compound.{m}.e.deg" for m in G.MODES]:
         kind = km.split(".")[0]
         ops = ops_for(km, "warm")
         plans = [("both", (3 if kind in loc_kinds else 1) if quick else 25)]
@@ -517,7 +643,7 @@ def operand_cases(run):
     for km in kms + INH_KINDMODES:
         kind = km.split(".")[0]
         calls = ops_for(km, "args")
-        for _ in range((2 if quick else 30) if calls else 0):
+        for _ in range((3 if quick else 20) if calls else 0):
             seed = rng.randint(0, 10 ** 6)
             for call in calls:
                 run.count("args:" + kind)
@@ -608,15 +734,53 @@ def extra_checks(run):
     cold()
     run.extra["history_isolation"] = isolation_mode()
     run.extra["shims_used"] = list(shims.USED)
-    run.extra["call_tokens_per_kind"] = {km: len(tokens_for(km)) for km in KINDMODES if km.endswith(".chrom.e")}
+    run.extra["call_tokens_per_kind"] = {km: len(tokens_for(km)) for km in KINDMODES + EXTRA_KINDMODES
+                                         if km.endswith(".chrom.e")}
+    # generated inventory: public methods with arguments (by introspection of the real classes) vs the tables.  A method
+    # that is in no table and not in the exclusion list is RECORDED (`uncovered_methods`), the check does not fail on it.
+    try:
+        inv = O.inventory()
+        run.extra["arg_method_inventory"] = inv["per_class"]
+        run.extra["uncovered_methods"] = inv["uncovered_methods"]
+        run.extra["arg_tokens_per_kind"] = {km: len(ops_for(km, "args")) for km in
+                                            [f"{k}.chrom.e" for k in G.ALL_KINDS]}
+        if inv["uncovered_methods"]:
+            run.notes.append("public methods with arguments in no table of the args / warm / hist legs (not excluded): " +
+                             ", ".join(inv["uncovered_methods"]))
+    except Exception as e:  # noqa  (the inventory is information, never a verdict)
+        run.extra["uncovered_methods"] = None
+        run.notes.append(f"method inventory failed: {type(e).__name__}: {str(e)[:200]}")
+    run.notes.append("methods deliberately excluded from the args / warm tables: " + "; ".join(
+        f"{c}.{m}: {why}" for (c, m), why in sorted(O.EXCLUDED_METHODS.items())))
+
+
+def _cost(line):
+    """rough relative cost of evaluating a line on the real library"""
+    t = line.split()
+    if t[0] == "warm":
+        return 20 * (len(t) - 4)
+    if t[0] == "hist":
+        return 6 * (len(t) - 3)
+    if t[0] == "plru":
+        return 100
+    return {"args": 15, "lazy": 50}.get(t[0], 1)
+
+
+def _balanced(lines, buckets=128):
+    """The engine hands CONSECUTIVE slices of the line list to its worker pool (128 slices): deal the lines out so that
+    every slice gets the same share of the expensive ones (the set of lines and every verdict are unchanged; the order
+    is a deterministic function of the lines)."""
+    order = sorted(range(len(lines)), key=lambda i: (-_cost(lines[i]), i))
+    per = [[] for _ in range(buckets)]
+    for n, i in enumerate(order):
+        r, q = n % buckets, n // buckets
+        per[r if q % 2 == 0 else buckets - 1 - r].append(i)
+    return [lines[i] for b in per for i in sorted(b)]
 
 
 def cases(run):
-    yield from lru_cases(run)
-    yield from plru_cases(run)
-    yield from lazy_cases(run)
-    yield from cds_cases(run)
-    yield from merge_cases(run)
-    yield from export_cases(run)
-    yield from hist_cases(run)
-    yield from operand_cases(run)
+    lines = []
+    for gen in (lru_cases, plru_cases, lazy_cases, cds_cases, merge_cases, export_cases, hist_cases, layout_cases,
+                operand_cases):
+        lines.extend(gen(run))
+    yield from _balanced(lines)
